@@ -17,6 +17,7 @@ TRender == /\ l <= Len(T) /\ Ev.op = "render" /\ Render
            /\ Check("unambiguous_tree_renders", ~Ambiguous => Ev.outcome = "ok")
            /\ (Prop = "C02" => Check("closure_of_what_was_rendered", Ev.outcome = "ok" => (Ev.unique_siblings /\ Ev.binds_once /\ Ev.controls_once /\ Ev.closure)))
            /\ (Prop = "C05" => Check("logic_attribute_on_its_own_bind_only", Ev.outcome = "ok" => {Ev.required_on[i] : i \in 1..Len(Ev.required_on)} = MarkedPaths))
+           /\ (Prop = "C15" => Check("pretty_and_compact_agree_on_every_render", Ev.outcome = "ok" => Ev.modes_agree))
            /\ (Prop = "C07" => Check("itext_closed_on_every_render", Ev.outcome = "ok" => (Ev.refs_resolve /\ Ev.same_ids /\ Ev.has_refs)))
            /\ l' = l + 1 /\ UNCHANGED tid
 TSpec == TInit /\ [][TAdd \/ TMark \/ TRender]_<<svars, tid, l>>
